@@ -29,7 +29,12 @@ RULE = ("cases = (format, bytes) for the five formats newick | multi (multi-Newi
         "div / num_date values), values of another type (number/string/array/object/bool swapped), empty arrays and objects, removed "
         "and duplicated keys, children nested up to 400 deep; empty <clade/>, missing or empty <name>, non-numeric or empty "
         "<branch_length>/<confidence>, empty and nested empty elements (taxonomy, id, code), unknown and renamed elements, "
-        "duplicated children, odd attributes; very large magnitude integers (2^31, 2^32, 2^62, 2^63-1, 2^63, 2^64, 10^9..10^30, "
+        "duplicated children, odd attributes; grammar-based Newick anomalies, 2..4 independent ones per document (kind "
+        "anomaly:*; as single tree, in a multi-tree stream and embedded in a Nexus TREE command): empty child at first / middle / "
+        "last position at any depth incl. the root, every order of up to two (thorough three) of {length, support, name, comment, "
+        "second comment} after the outermost ')' x eight empty-child bodies, all orders of three after an empty last child, "
+        "reordered/repeated suffixes after inner ')', double colons, comments in odd places, missing ';', trailing garbage, "
+        "unbalanced parentheses at the end; very large magnitude integers (2^31, 2^32, 2^62, 2^63-1, 2^63, 2^64, 10^9..10^30, "
         "negative ones) at EVERY integer-valued position of each grammar (kind hugeint:<position>): Nexus DIMENSIONS NTAX= of "
         "the TAXA block, NTAX= and NCHAR= of the DATA/CHARACTERS block (before MATRIX, either block order), TRANSLATE indices, "
         "numeric tree names and labels, supports, lengths, numbers in comments; Newick lengths, supports, p-values, names; "
@@ -561,6 +566,101 @@ def huge_cases(rng, tier):
         out.append(case(fmt, d[:m.start()] + str(rng.choice(HUGE)) + d[m.end():], "hugeint:random"))
     return out
 
+# ---------------------------------------------------------------- grammar-based Newick anomalies, several per document
+SUFFIX = {"length": ":0.5", "support": "0.75", "name": "X", "comment": "[&rate=1.0]", "comment2": "[c]"}
+
+def anomalous_newick(rng, t, k_anom, top=True, state=None):
+    """Newick text of a node dict with [k_anom] independent local anomalies spread over it: empty children (first / middle /
+    last position, any depth incl. the root), any order of {length, support, name, comment, second comment} after a ')'
+    incl. the outermost, double colons, comments in odd places, and at the end: missing ';', trailing garbage, unbalanced
+    parentheses"""
+    if state is None:
+        nodes = sum(1 for _ in preorder(t))
+        state = {"left": k_anom, "p": min(1.0, 1.5 * k_anom / max(1, nodes))}
+    def hit():
+        if state["left"] > 0 and rng.random() < state["p"]:
+            state["left"] -= 1
+            return True
+        return False
+    k = kids(t)
+    s = ""
+    if k:
+        parts = []
+        for e, c in k:
+            p = anomalous_newick(rng, c, 0, False, state)
+            if kids(c):
+                # after the ')' of an inner node: support / name / length / comments, possibly reordered or repeated
+                suf = []
+                if e["sup"] is not None and c["name"] == "": suf.append("support")
+                if e["len"] is not None: suf.append("length")
+                if hit():
+                    extra = rng.sample(list(SUFFIX), rng.randint(1, 4))
+                    suf = extra if rng.random() < 0.5 else suf + extra
+                    rng.shuffle(suf)
+                p += "".join(SUFFIX[x] for x in suf)
+            else:
+                if e["len"] is not None:
+                    p += (":" if not hit() else rng.choice(["::", ":", ":[c]", "[c]:", ":1:"])) + "1.5"
+                if hit():
+                    p += rng.choice(["[c]", "[a][b]", ":2", " x", "[", "]"])
+            parts.append(p)
+        if hit():
+            parts.insert(rng.choice([0, len(parts) // 2, len(parts)]), "")          # an empty child
+        if hit():
+            parts.insert(rng.randrange(len(parts) + 1), rng.choice(["[c]", "()", "(,)", ":1"]))
+        s = "(" + ",".join(parts) + ")"
+    s += t["name"]
+    if top:
+        if hit() or state["left"] > 0:
+            extra = rng.sample(list(SUFFIX), rng.randint(1, 4))
+            state["left"] = max(0, state["left"] - 1)
+            s += "".join(SUFFIX[x] for x in extra)
+        r = rng.random()
+        if state["left"] > 0:
+            state["left"] -= 1
+            s += rng.choice(["", ";;", ";x", "; (a,b);", ")", "));", "(", ";[c]", " ;", "[c", ":;", ",;"])
+        else:
+            s += ";"
+    return s
+
+def suffix_orders(maxk):
+    from itertools import permutations
+    keys = list(SUFFIX)
+    out = [()]
+    for k in range(1, maxk + 1):
+        out += list(permutations(keys, k))
+    return out
+
+def anomaly_cases(rng, tier):
+    out = []
+    bodies = {"none": "(A:1,B:2)", "first": "(,A:1,B:2)", "middle": "(A:1,,B:2)", "last": "(A:1,B:2,)",
+              "inner-last": "((A:1,B:2,):1,C:1)", "inner-first": "((,A:1,B:2),C:1)", "only": "(,)", "nested-empty": "((),A:1)"}
+    def emit(text, kind):
+        out.append(case("newick", text, "anomaly:" + kind))
+        out.append(case("multi", text + "\n(A,B);\n", "anomaly:" + kind))
+        out.append(case("nexus", "#NEXUS\nBEGIN TREES;\n TREE t = " + text + "\nEND;\n", "anomaly:" + kind))
+    # every order of up to two (thorough: three) suffix items after the outermost ')' x the empty-child variants
+    for perm in suffix_orders(3 if tier == "thorough" else 2):
+        for bk, body in bodies.items():
+            if tier == "search" and bk not in ("last", "none"):
+                continue
+            emit(body + "".join(SUFFIX[x] for x in perm) + ";", "root-suffix/" + bk)
+    # every order of three suffix items after an empty last child (the parser's stack is empty there)
+    if tier != "search":
+        for perm in suffix_orders(3)[26:]:
+            out.append(case("newick", "(A:1,B:2,)" + "".join(SUFFIX[x] for x in perm) + ";", "anomaly:root-suffix3/last"))
+    # random trees with 2..4 composed anomalies
+    for _ in range({"quick": 220, "thorough": 20000, "search": 120}[tier]):
+        t = rand_tree(rng, lo=2, hi=8)
+        text = anomalous_newick(rng, t, rng.randint(2, 4))
+        fmt = rng.choice(["newick", "newick", "multi", "nexus"])
+        if fmt == "multi":
+            text = rng.choice(["", "(A,B);\n"]) + text + "\n" + rng.choice(["", "(C,D);\n"])
+        elif fmt == "nexus":
+            text = "#NEXUS\nBEGIN TREES;\n TREE t = " + text + "\nEND;\n"
+        out.append(case(fmt, text, "anomaly:composed"))
+    return out
+
 GENS = {"newick": gen_newick, "multi": gen_multi, "nexus": gen_nexus, "phyloxml": gen_phyloxml, "nextstrain": gen_nextstrain}
 
 # ---------------------------------------------------------------- damage
@@ -761,7 +861,7 @@ def gen(rng, tier):
     for j, bc in enumerate(bigs):
         out.insert(min(len(out), j * 200 + 7), bc)
     # spread over the chunks: a worker that dies on one of them is restarted by the runner for the cases that follow
-    hs = huge_cases(rng, tier)
+    hs = huge_cases(rng, tier) + anomaly_cases(rng, tier)
     step = max(1, len(out) // max(1, len(hs)))
     for j, hc in enumerate(hs):
         out.insert(min(len(out), j * (step + 1) + 3), hc)
